@@ -42,6 +42,15 @@ func (g *Gen) p(num, den int, label string) bool {
 	return rapid.IntRange(0, den-1).Draw(g.T, label) < num
 }
 
+// rare is true with a probability of roughly 0.4/den: rapid's integers are biased towards
+// the ends of a range, so a rare event is keyed to the middle of the range.
+func (g *Gen) rare(den int, label string) bool {
+	return rapid.IntRange(0, den-1).Draw(g.T, label) == den/2
+}
+
+// Rare is rare for callers outside the package.
+func (g *Gen) Rare(den int, label string) bool { return g.rare(den, label) }
+
 func pick[X any](g *Gen, xs []X, label string) X {
 	return xs[rapid.IntRange(0, len(xs)-1).Draw(g.T, label)]
 }
@@ -67,7 +76,7 @@ func GenSchema(t *rapid.T) *Schema {
 	}
 	// A single value as the default of a list-typed input field is spec-valid but trips a
 	// recorded defect on every use of the type; keep it rare.
-	g.NoSingle = !g.p(1, 25, "allow-singleton-list-default")
+	g.NoSingle = !g.rare(10, "allow-singleton-list-default")
 	ni := g.n(1, 4, "inputs")
 	for i := 0; i < ni; i++ {
 		s.Inputs = append(s.Inputs, Input{Name: fmt.Sprintf("In%d", i)})
@@ -426,7 +435,7 @@ func (g *Gen) intLiteral() string {
 		}
 		return g.SentinelInt()
 	}
-	if g.p(1, 300, "intmin") {
+	if g.rare(100, "intmin") {
 		return "-2147483648" // trips a recorded defect of operation validation: rare
 	}
 	return pick(g, intSpellings, "intsp")
